@@ -95,7 +95,17 @@ type Exec struct {
 	initDone    map[*ssa.Function]bool
 	boundOK     map[int]bool
 	reachSeen   map[string]bool
+	lazyFail    map[[2]interface{}]int
 	boundPC     map[int][]*Term
+}
+
+// isEagerFn: branches in these functions are always decided by the solver (their arms
+// rarely merge and are often infeasible: rune-by-rune text processing).
+func (ex *Exec) isEagerFn(fn *ssa.Function) bool {
+	if fn.Pkg != nil && strings.HasSuffix(fn.Pkg.Pkg.Path(), "/verifrt") {
+		return true
+	}
+	return false
 }
 
 func (ex *Exec) isNoMerge(fn *ssa.Function) bool {
@@ -678,8 +688,8 @@ func (ex *Exec) site(f *Frame) string {
 }
 
 func shortFile(s string) string {
-	if i := strings.Index(s, "/repo/"); i >= 0 {
-		return s[i+6:]
+	if strings.HasPrefix(s, repoDir+"/") {
+		return s[len(repoDir)+1:]
 	}
 	if i := strings.LastIndex(s, "/"); i >= 0 {
 		return s[i+1:]
